@@ -19,11 +19,18 @@ RULES = {
     'C19.b': 'Newer compares change.opp_id > old_value.opp_id: true -> re-apply, false -> keep the stored value',
     'C19.c': 'the re-applied change carries the stored version and is marked resolving (to_resolve_change)',
     'C19.d': 'default strategy Newer for the admin database and for databases loaded without a metadata file',
+    'C19.g': 'the store stamps an entry with the opp_id of the change that wrote it (issue order): the Newer comparison '
+             'change.opp_id > stored.opp_id is then between two issue times, never between an issue time and an apply time',
     'C19.f': 'the conflict entry point calls the resolver only for VersionError; the resolver switches on metadata.consensus_strategy',
 }
 
 
 def run(ck, m):
+    _run(ck, m)
+    stamp_rule(ck, m)
+
+
+def _run(ck, m):
     for k, v in RULES.items():
         ck.rule(k, v)
     P = m.prog
@@ -170,6 +177,30 @@ def run(ck, m):
           'the resolver is called exactly for VersionError; any other answer of the store is returned unchanged' if okf else
           'conflict entry point does not hand every VersionError (and nothing else) to the resolver: a versioned write can be refused on a '
           'newer-strategy database (for instance on a node in the Secondary role) while the primary accepts it', '%s:%s' % (ent[0].file, ent[0].line) if ent else '')
+
+
+def stamp_rule(ck, m):
+    P = m.prog
+    sb = store_fn(m)
+    n = 0
+    bad = []
+    for bi, bl in enumerate(sb.blocks):
+        if bl.get('cleanup'):
+            continue
+        for s in bl['s']:
+            if s['k'] == 'assign' and s['r']['k'] == 'agg' and s['r'].get('adt', '').endswith('bo::Value') and 'opp_id' in s['r'].get('fields', []):
+                n += 1
+                op = s['r']['ops'][s['r']['fields'].index('opp_id')]
+                roots = origins(sb, op)
+                from_change = bool(roots) and all(r[0] == 'param' and r[1] == 2 and [q[2] for q in r[-1] if q[0] == 'f'][-1:] == ['opp_id'] for r in roots)
+                if not from_change:
+                    bad.append(sb.loc(bi))
+    ck.ob('C19.g', short(sb.id), 'entry-stamped-with-the-change-id', n > 0 and not bad,
+          'every entry the store writes carries change.opp_id' if n and not bad else
+          'the store stamps the entry at %s with something else than change.opp_id (a fresh id = apply time): a later-issued change that is '
+          'applied later but presents a stale version loses against the earlier one although it is the most recent write; the reply says Set '
+          'and the replicas apply it, so they diverge from the primary' % bad, '%s:%s' % (sb.file, sb.line))
+    ck.floor('C19.g', n, 2, 'Value aggregates built by the store')
 
 
 def returns_resolving(cb):
